@@ -4,14 +4,19 @@ from harness import frames as FR
 from harness.endpoint import Recorder, RecPublisher, RecSubscriber
 
 
+BIG = [0.0]      # probability of a payload large enough to be fragmented on the way out (set per scenario)
+
+
 def _pay(rng, k):
+    if BIG[0] and rng.random() < BIG[0]:
+        return (b'' if rng.random() < 0.6 else b'm%d' % k, b'd%d' % k + b'+' * rng.choice([80, 150]))
     return (b'' if rng.random() < 0.6 else b'm%d' % k, b'd%d' % k)
 
 
 class Scenario:
     def __init__(self, rng, role='server', lenreq=False, hostile=0.0, with_close=True, steps=12, frag=0.0,
                  close_mode=None, garbage=0.0, race=0.0, on_close_raises=False,
-                 app_raises_at_close=False):
+                 app_raises_at_close=False, out_frag=False):
         self.rng = rng
         self.race = race                # probability that a local action shares its loop iteration with the next peer event
         self.raced = 0
@@ -20,7 +25,8 @@ class Scenario:
         self.garbage = garbage          # probability that a hostile step is raw bytes rather than a well-formed frame
         self.raw_injected = 0
         self.fragmented = 0
-        self.rec = Recorder(role, lenreq)
+        self.rec = Recorder(role, lenreq, fragment_size=64 if out_frag else None)
+        self.out_frag = out_frag
         self.rec.on_close_raises = on_close_raises
         self.app_raises_at_close = app_raises_at_close
         self.first = 2 if role == 'server' else 1
@@ -538,6 +544,7 @@ class Scenario:
     # ---- run
     def run(self):
         rng = self.rng
+        BIG[0] = 0.35 if self.out_frag else 0.0
         try:
             for _ in range(self.steps):
                 if self.closed:
